@@ -337,8 +337,10 @@ func specGfpow(t T, p int) T {
 //@ lemma tablesMulRowW
 //@   props C09 C11 C07 C12
 //@   kind exhaust
-//@   forall c T
-//@   ensures forallv(w, T, mulTable[c].s0[w&0xff] == specGfmul(c, w&0xff) && mulTable[c].s8[w>>8] == specGfmul(c, (w>>8)<<8))
+//@   forall c T, j T
+//@   range j 0 256
+//@   requires j < 256
+//@   ensures mulTable[c].s0[j] == specGfmul(c, j) && mulTable[c].s8[j] == specGfmul(c, j<<8)
 
 //@ func mulSliceGeneric
 //@   props C09
@@ -347,12 +349,13 @@ func specGfpow(t T, p int) T {
 //@   requires sameSlice(in, out[:len(in)]) || disjoint(in, out)
 //@   modifies out[:len(in)]
 //@   ensures forall(k, 0, len(in), out[k] == specGfmul(c, old(in[k])))
-//@   uses tablesMulRowW(c)
 //@   loop 0
 //@     invariant 0 <= i && i <= len(in)
 //@     invariant forall(k, 0, i, out[k] == specGfmul(c, old(in[k])))
 //@     invariant forall(k, i, len(in), in[k] == old(in[k]))
 //@     use-step mulSplitWord(c, head(in[i]))
+//@     use-step tablesMulRowW(c, head(in[i]) & 0xff)
+//@     use-step tablesMulRowW(c, head(in[i]) >> 8)
 
 //@ func mulAndAddSliceGeneric
 //@   props C09
@@ -361,10 +364,11 @@ func specGfpow(t T, p int) T {
 //@   requires disjoint(in, out)
 //@   modifies out[:len(in)]
 //@   ensures forall(k, 0, len(in), out[k] == old(out[k]) ^ specGfmul(c, old(in[k])))
-//@   uses tablesMulRowW(c)
 //@   loop 0
 //@     invariant 0 <= i && i <= len(in)
 //@     invariant forall(k, 0, i, out[k] == old(out[k]) ^ specGfmul(c, old(in[k])))
 //@     invariant forall(k, i, len(in), out[k] == old(out[k]))
 //@     invariant forall(k, 0, len(in), in[k] == old(in[k]))
 //@     use-step mulSplitWord(c, head(in[i]))
+//@     use-step tablesMulRowW(c, head(in[i]) & 0xff)
+//@     use-step tablesMulRowW(c, head(in[i]) >> 8)
